@@ -109,7 +109,9 @@ def appends(fn, P, L, creation_block=None):
                 kind_ = ('be:' if 'BigEndian' in g_ else 'le:' if 'LittleEndian' in g_ else '?e:') + kind_
             out.append(Append(b, kind_, elems[0] if elems else None, t['fn']['name'], b in loops))
         else:
-            out.append(Append(b, 'other:' + ln, elems[0] if elems else None, t['fn']['name'], b in loops))
+            ap_ = Append(b, 'other:' + ln, elems[0] if elems else None, t['fn']['name'], b in loops)
+            ap_.elems = elems
+            out.append(ap_)
     dom = fn.dominators()
     out.sort(key=lambda a: (len(dom.get(a.block, ())), a.block))
     return out
@@ -297,6 +299,88 @@ class Canon:
         return prefix + [ap]
 
     # ---- range bounds in linear normal form ------------------------------------------------------------------------
+    def _store_label(self, b, i):
+        fn, P = self.fn, self.P
+        bl = fn.blocks[b]
+        if i >= len(bl['stmts']):
+            return 'call:' + last(bl['term']['fn'].get('name') or '?')
+        for q in bl['stmts'][i]['lhs']['p']:
+            if isinstance(q, dict) and 'cidx' in q:
+                return '[%s%d]' % ('-' if q.get('from_end') else '', q['cidx'])
+            if isinstance(q, dict) and 'idx' in q:
+                return '[%s]' % self.c(norm(P.local(q['idx'], b, i)))
+            if isinstance(q, dict) and 'subslice' in q:
+                return '[..]'
+        return '?'
+
+    def version(self, e):
+        """suffix naming the memory version an element read sees: `#{E|[0]|[each(..)]|call:f}` -- E is the object as created,
+        assigned as a whole or passed in, `[i]` the element store at index i, `call:f` a call holding `&mut` to the object
+        (each the latest such event on some path to the read).  When several stores of the object carry the same label they
+        are numbered in program order (`[1]'2`).  Reads of objects never written element-wise here carry no suffix."""
+        rs = e.c.get('reach') if isinstance(e.c, dict) else None
+        if not rs:
+            return ''
+        fn, P = self.fn, self.P
+        if not hasattr(self, '_vlabels'):
+            dom = fn.dominators()
+            groups = {}
+            for s_ in P.elem_stores():
+                if s_[4]:
+                    continue
+                groups.setdefault((s_[2], self._store_label(s_[0], s_[1])), []).append((len(dom.get(s_[0], ())), s_[0], s_[1]))
+            self._vlabels = {}
+            for (root_, lab_), sites_ in groups.items():
+                sites_.sort()
+                for n_, (_, b_, i_) in enumerate(sites_):
+                    self._vlabels[(b_, i_)] = lab_ if len(sites_) == 1 else "%s'%d" % (lab_, n_ + 1)
+        labs = set()
+        for r in rs:
+            if r != 'E' and self._never_aliases(e, r):
+                continue
+            labs.add('E' if r == 'E' else self._vlabels.get(tuple(r), self._store_label(*r)))
+        if labs <= {'E'}:
+            return ''
+        return '#{%s}' % '|'.join(sorted(labs))
+
+    def _loop_counter(self, e):
+        """(site of the `next()` call, E of the range) when e is the element of an ascending `for i in lo..hi`"""
+        e = strip(e)
+        if e.k == 'field' and e.name == '0' and e.args:
+            inner = strip(e.args[0])
+            if inner.k == 'field' and inner.name == 'as Some' and inner.args:
+                src = strip(inner.args[0])
+                if src.k == 'call' and last(src.name) == 'next' and src.args:
+                    it = strip(src.args[0])
+                    while it.k == 'call' and last(it.name) in ('into_iter', 'by_ref') and it.args:
+                        it = strip(it.args[0])
+                    if it.k == 'aggr' and it.name == 'Range::Range':
+                        return ((src.c or {}).get('header') if isinstance(src.c, dict) and 'header' in src.c else src.site, it)
+        return None
+
+    def _never_aliases(self, rd, site):
+        """`x[i] = ..` inside `for i in lo..hi` never writes the element `x[i + c]` (c >= 1) read in the same loop: earlier
+        iterations wrote indices below i, this iteration writes index i"""
+        from .prov import const_int
+        fn, P = self.fn, self.P
+        b, i = site
+        if i >= len(fn.blocks[b]['stmts']) or len(rd.args) < 2:
+            return False
+        q = [q for q in fn.blocks[b]['stmts'][i]['lhs']['p'] if isinstance(q, dict) and 'idx' in q]
+        if not q:
+            return False
+        sd = self._loop_counter(norm(P.local(q[0]['idx'], b, i)))
+        if sd is None or sd[0] is None:
+            return False
+        r = strip(rd.args[1])
+        if r.k == 'field' and r.name == '0' and r.args and strip(r.args[0]).k == 'binop':
+            r = strip(r.args[0])
+        if not (r.k == 'binop' and r.name in ('Add', 'AddWithOverflow') and len(r.args) == 2):
+            return False
+        c = const_int(strip(r.args[1]))
+        rc = self._loop_counter(r.args[0])
+        return c is not None and c >= 1 and rc is not None and rc[0] == sd[0] and self.c(rc[1]) == self.c(sd[1])
+
     def linear_of_text(self, s_, depth=0):
         """({atom text: coefficient}, constant) of a rendered integer expression built with checked + and -"""
         if s_.isdigit():
@@ -713,7 +797,7 @@ class Canon:
                     parts.append(cur.strip())
                 if int(e.name) < len(parts):
                     return parts[int(e.name)]
-            return in_s + '.' + e.name
+            return in_s + '.' + e.name + self.version(e)
         if k == 'call':
             ln = last(e.name)
             if ln == 'from' and len(e.args) == 1 and (e.ty or '').strip() in INTW and 'convert::From<' in (e.name or ''):
@@ -853,10 +937,10 @@ class Canon:
                     a_s = self.bound(r_.args[0])
                     i_s = self.c(e.args[1])
                     idx_ = i_s if a_s == '0' else (str(int(a_s) + int(i_s)) if a_s.isdigit() and i_s.isdigit() else 'AddWithOverflow(%s, %s).0' % (a_s, i_s))
-                    return '%s[%s]' % (self.c(base.args[0]), idx_)
+                    return '%s[%s]%s' % (self.c(base.args[0]), idx_, self.version(e))
                 if r_.k == 'aggr' and r_.name == 'RangeTo::RangeTo':
-                    return '%s[%s]' % (self.c(base.args[0]), self.c(e.args[1]))
-            return '%s[%s]' % (self.c(e.args[0]), self.c(e.args[1]) if len(e.args) > 1 else e.name)
+                    return '%s[%s]%s' % (self.c(base.args[0]), self.c(e.args[1]), self.version(e))
+            return '%s[%s]%s' % (self.c(e.args[0]), self.c(e.args[1]) if len(e.args) > 1 else e.name, self.version(e))
         if k == 'phi':
             return 'phi(%s)' % ' | '.join(sorted(self.c(a) for a in e.args))
         if k == 'local':
